@@ -217,6 +217,7 @@ func uploadBundle(ctx context.Context, bundle *Bundle, bundleEntriesPerFile uint
 	if err != nil {
 		return err
 	}
+	files = uniqueKeys(files)
 
 	if len(files) == 0 {
 		bundle.l.Warn("Uploading bundle with 0 files")
@@ -342,6 +343,20 @@ func uploadBundle(ctx context.Context, bundle *Bundle, bundleEntriesPerFile uint
 		zap.String("BundleID", bundle.BundleID),
 	)
 	return nil
+}
+
+// uniqueKeys drops repeated keys, keeping the first occurrence: a file listed twice is one file
+func uniqueKeys(keys []string) []string {
+	seen := make(map[string]struct{}, len(keys))
+	unique := make([]string, 0, len(keys))
+	for _, key := range keys {
+		if _, ok := seen[key]; ok {
+			continue
+		}
+		seen[key] = struct{}{}
+		unique = append(unique, key)
+	}
+	return unique
 }
 
 func validateBundle(bundle *Bundle) bool {
